@@ -133,6 +133,12 @@ def main() -> int:
             lg.setLevel(logging.DEBUG)
             lg.addHandler(logging.NullHandler())
             lg.propagate = False
+        if sys.flags.bytes_warning:
+            warnings.filterwarnings("error", category=BytesWarning, module=r"aioswitcher(\..*)?$")
+            acc.count("bytes_warnings_are_errors_for_library_code")
+        import locale as _locale
+
+        acc.count(f"filesystem_encoding_{sys.getfilesystemencoding()}")
         if args.shard % 3 == 1:
             # the decimal context is the application's to set; a third of the workers run with another rounding mode
             import decimal
